@@ -277,10 +277,35 @@ pub fn main(tier: Tier, seed: u64) -> i32 {
             }
         }
     }
+    // role sweep on small circuits: every evaluator x every non-empty output set (n = 2, 3), a
+    // selection for n = 4, and the same with a party that owns no input wire
+    for n in [2usize, 3, 4] {
+        let feats = crate::circuits::feature_circuits(n);
+        let mut circs: Vec<(&str, crate::circuits::Circ)> = vec![feats[0].clone()];
+        if let Some(z) = feats.iter().find(|(name, _)| name.contains("zero_input")) {
+            circs.push(z.clone());
+        }
+        let p_outs: Vec<Vec<usize>> = if n <= 3 {
+            (1u32..(1 << n)).map(|m| (0..n).filter(|p| m >> p & 1 == 1).collect()).collect()
+        } else {
+            vec![vec![0], vec![3], vec![1, 2], vec![0, 2, 3]]
+        };
+        for (name, c) in &circs {
+            for p_eval in if n == 4 { vec![0usize, 2] } else { (0..n).collect::<Vec<_>>() } {
+                for p_out in &p_outs {
+                    shapes.push((format!("roles:{name}/n{n}/e{p_eval}/out{p_out:?}"), MpcCase { inputs: c.inputs_from_mask(0b110), circ: c.clone(), p_eval, p_out: p_out.clone(), tmp_mask: 0 }));
+                }
+            }
+        }
+    }
     let mut shape_runs: Vec<(usize, Option<usize>, u8)> = vec![];
     for si in 0..shapes.len() {
-        for cap in [Some(1), None] {
+        for cap in [Some(1), Some(2), None] {
             for policy in 0..3u8 {
+                // capacity 2 only for the small role-sweep circuits
+                if cap == Some(2) && !shapes[si].0.starts_with("roles:") {
+                    continue;
+                }
                 shape_runs.push((si, cap, policy));
             }
         }
